@@ -57,21 +57,60 @@ def r09_1(ctx: Ctx) -> None:
     ctx.check(ok, "R09.1", f, dele[0], "targets and recursive are forwarded", "extract() does not forward targets/recursive to _extract")
 
 
+def member_loops(ctx: Ctx, f):
+    """the loops of _extract over the members: (selection loop, registration loop, name of the set of unselected ids or None).
+    One loop does both in the original code; the repaired code selects first (and asks for the password before anything is touched), records
+    the ids that are not wanted in a set, and registers in a second loop: `if f.id in <set>: register None; continue`."""
+    loops = [n for n in walk(f.node) if isinstance(n, ast.For) and norm(n.iter) == "self.files"]
+    ctx.need(len(loops) in (1, 2), "member loop(s) of _extract not recognised")
+    if len(loops) == 1:
+        return loops[0], loops[0], None
+    sel = [l for l in loops if any(isinstance(x, ast.Compare) and isinstance(x.ops[0], ast.NotIn) and norm(x.comparators[0]) == "targets" for x in ast.walk(l))]
+    reg = [l for l in loops if any(isinstance(x, ast.Call) and attr_tail(x) == "register_filelike" for x in ast.walk(l))]
+    ctx.need(len(sel) == 1 and len(reg) == 1 and sel[0] is not reg[0] and sel[0].lineno < reg[0].lineno, "selection / registration loops of _extract not recognised")
+    adds = [x for x in ast.walk(sel[0]) if isinstance(x, ast.Call) and attr_tail(x) == "add" and isinstance(x.func.value, ast.Name)]
+    names = {x.func.value.id for x in adds}
+    ctx.need(len(names) == 1, "the selection loop of _extract does not record the unselected members in one set")
+    sname = next(iter(names))
+    # nothing else writes the set between the loops
+    other = [x for x in walk(f.node) if isinstance(x, ast.Call) and isinstance(x.func, ast.Attribute) and norm(x.func.value) == sname and x.func.attr not in ("add",)
+             and x.func.attr in ("discard", "remove", "clear", "pop", "update", "difference_update", "intersection_update")]
+    ctx.need(not other, f"the set `{sname}` of unselected members is modified outside the selection loop")
+    return sel[0], reg[0], sname
+
+
 def r09_2(ctx: Ctx) -> None:
     f = shared.szf(ctx, "_extract")
     cfg = cfg_of(f.node)
-    loops = [n for n in walk(f.node) if isinstance(n, ast.For) and norm(n.iter) == "self.files"]
-    ctx.need(len(loops) == 1, "member loop of _extract not recognised")
-    lp = loops[0]
+    sel, regl, sname = member_loops(ctx, f)
+    lp = sel
+
+    def registers_none(p) -> bool:
+        return p.kind == "stmt" and isinstance(p.ast, ast.Expr) and isinstance(p.ast.value, ast.Call) and attr_tail(p.ast.value) == "register_filelike" \
+            and isinstance(p.ast.value.args[1], ast.Constant) and p.ast.value.args[1].value is None
+
     conts = [n for n in walk(lp) if isinstance(n, ast.Continue)]
     ctx.floor("R09.2", len(conts), 2, "continue statements (filter arms) in the member loop")
     for c in conts:
         cn = q.node_for(f, c)
         preds = cn.pred
-        ok = all(p.kind == "stmt" and isinstance(p.ast, ast.Expr) and isinstance(p.ast.value, ast.Call) and attr_tail(p.ast.value) == "register_filelike"
-                 and isinstance(p.ast.value.args[1], ast.Constant) and p.ast.value.args[1].value is None and norm(p.ast.value.args[0]) == f"{lp.target.id}.id" for p in preds)
+        if sname is None:
+            ok = all(registers_none(p) and norm(p.ast.value.args[0]) == f"{lp.target.id}.id" for p in preds)
+        else:
+            ok = all(p.kind == "stmt" and isinstance(p.ast, ast.Expr) and isinstance(p.ast.value, ast.Call) and attr_tail(p.ast.value) == "add"
+                     and norm(p.ast.value.func.value) == sname and norm(p.ast.value.args[0]) == f"{lp.target.id}.id" for p in preds)
         ctx.check(ok, "R09.2", f, c, "an unselected member is registered None before the loop continues",
                   "an unselected member is skipped without being registered as None: the folder writer cannot tell it from a member to deliver / skip-decode")
+    if sname is not None:
+        # the registration loop: exactly the recorded ids are registered None and passed over, before anything else is done with the member
+        gate = [n for n in regl.body if isinstance(n, ast.If) and isinstance(n.test, ast.Compare) and len(n.test.ops) == 1 and isinstance(n.test.ops[0], ast.In)
+                and norm(n.test.left) == f"{regl.target.id}.id" and norm(n.test.comparators[0]) == sname]
+        ok = bool(gate) and regl.body[0] is gate[0] and len(gate[0].body) == 2 and isinstance(gate[0].body[1], ast.Continue) and isinstance(gate[0].body[0], ast.Expr) \
+            and isinstance(gate[0].body[0].value, ast.Call) and attr_tail(gate[0].body[0].value) == "register_filelike" and norm(gate[0].body[0].value.args[0]) == f"{regl.target.id}.id" \
+            and isinstance(gate[0].body[0].value.args[1], ast.Constant) and gate[0].body[0].value.args[1].value is None and not gate[0].orelse
+        ctx.check(ok, "R09.2", f, gate[0] if gate else regl, "the registration loop registers None for exactly the recorded ids, first thing",
+                  f"the registration loop of _extract does not start with `if {regl.target.id}.id in {sname}: register None; continue`: members that were not selected get an output, or "
+                  "selected ones are dropped", construct="registration of unselected members")
     # the two arms
     tests = [n for n in walk(lp) if isinstance(n, ast.If) and any(isinstance(x, ast.Continue) for x in n.body)]
     def is_member_name(e: ast.AST) -> bool:
@@ -273,7 +312,7 @@ def r09_5(ctx: Ctx) -> None:
         ok = any(cd.endswith(".is_directory") and pol for cd, pol in facts)
         ctx.check(ok, "R09.5", f, a, "only selected directory members are pre-created", "a directory is queued for creation outside the 'selected directory member' branch")
         # the append sits after the filter arms (not reachable when the member was filtered out): dominated by no `continue` bypass
-    lp = [n for n in walk(f.node) if isinstance(n, ast.For) and norm(n.iter) == "self.files"][0]
+    lp = member_loops(ctx, f)[1]
     regs = [c for c in q.calls(f) if attr_tail(c) == "register_filelike" and not (isinstance(c.args[1], ast.Constant) and c.args[1].value is None)]
     cfg = cfg_of(f.node)
     for r in regs + apps:
